@@ -59,6 +59,10 @@ type Exec struct {
 	usedUnknown map[string]bool
 	usedContracts map[string]bool
 	aborted bool
+	trackCache map[*Contract]map[string]bool
+	curFr *Frame
+	wcount int
+	topFrame *frameDecl
 	curCall ssa.Instruction
 	siteOrd map[*ssa.Function]map[ssa.Instruction]int
 	lemmaKey string
@@ -352,6 +356,7 @@ func (ex *Exec) runBlock(st *State, fr *Frame, b *ssa.BasicBlock, prev *ssa.Basi
 				// back edge: preservation
 				st.path = append(st.path, fmt.Sprintf("loop%d.back", n))
 				ex.checkInvariants(st, fr, b, n, spec, "inv-pres")
+				ex.loopFrame(st, fr, n, "inv-pres", true)
 				if spec.Decreases != nil {
 					env := ex.invEnv(st, fr)
 					env.loopHead = b
@@ -369,7 +374,9 @@ func (ex *Exec) runBlock(st *State, fr *Frame, b *ssa.BasicBlock, prev *ssa.Basi
 			}
 			st.path = append(st.path, fmt.Sprintf("loop%d.enter", n))
 			ex.checkInvariants(st, fr, b, n, spec, "inv-init")
+			ex.loopFrame(st, fr, n, "inv-init", true)
 			ex.havocLoop(st, fr, b)
+			ex.loopFrame(st, fr, n, "", false)
 			env := ex.invEnv(st, fr)
 			env.loopHead = b
 			for _, inv := range spec.Invariants {
@@ -473,6 +480,26 @@ func (ex *Exec) havocLoop(st *State, fr *Frame, head *ssa.BasicBlock) {
 				}
 			}
 			ex.instrMods(ins, ms, 0)
+			// execution counters of tracked call sites inside the loop
+			var cc *ssa.CallCommon
+			switch x := ins.(type) {
+			case *ssa.Call:
+				cc = &x.Call
+			case *ssa.Defer:
+				cc = &x.Call
+			}
+			if cc != nil && fr.contract != nil && len(ex.tracked(fr.contract)) > 0 {
+				key, f := ex.calleeKey(st, cc)
+				if f == nil && !cc.IsInvoke() {
+					if rf := resolveClosureVar(cc.Value); rf != nil {
+						key = rf.String()
+					}
+				}
+				ord := ex.staticOrdinal(fr.fn, ins, key)
+				if name := ex.siteNameOf(fr, key, ord); name != "" {
+					ms.write(siteHeap(fr.fn.String(), name, ord), SortInt)
+				}
+			}
 		}
 	}
 	// closures called in the loop may store to captured cells: handled by
@@ -998,6 +1025,7 @@ func (ex *Exec) store(st *State, fr *Frame, p Val, v Val, pos token.Pos) {
 		if t.Sort != fs {
 			t = st.fresh("opaque", fs)
 		}
+		ex.writeCheck(st, fr, p.Heap, p.Obj, TrueT, "field store", ex.pos(pos))
 		h := st.heap(p.Heap, ArraySort(fs))
 		st.setHeap(p.Heap, Store(h, p.Obj, t))
 	case VElemPtr:
@@ -1006,6 +1034,7 @@ func (ex *Exec) store(st *State, fr *Frame, p Val, v Val, pos token.Pos) {
 		if t.Sort != es {
 			t = st.fresh("opaque", es)
 		}
+		ex.writeCheck(st, fr, memName(es), p.Rg, TrueT, "element store", ex.pos(pos))
 		m := st.heap(memName(es), memSort(es))
 		st.setHeap(memName(es), Store(m, p.Rg, Store(Select(m, p.Rg), p.Idx, t)))
 	case VGlobalPtr:
